@@ -8,7 +8,10 @@
 (* Load(file) is an ENVIRONMENT ASSUMPTION about hyperscan.loadb (re-measured*)
 (* on every replay): intact loads; a changed version / platform field raises*)
 (* DatabaseVersionError / DatabasePlatformError; everything else raises     *)
-(* InvalidError.                                                            *)
+(* InvalidError.  (Measured exception: a flipped byte in the body is        *)
+(* occasionally accepted -- the checksum does not cover every byte; the     *)
+(* trace specification tolerates that outcome and leaves the verdict to the *)
+(* same-tokens monitor.)                                                    *)
 (* Constructing a tokenizer is several steps: exists?, read + load, scratch *)
 (* assignment (AttributeError on None is caught), compile, write begin,     *)
 (* write end.  The process may crash between write begin and write end      *)
